@@ -59,8 +59,15 @@ pub broadcast axiom fn ax_cmp_v(a: f64, b: f64) ensures #[trigger] a.partial_cmp
 pub broadcast axiom fn ax_eq_v(a: f64, b: f64) ensures #[trigger] a.eq_spec(&b) == feq(a, b);
 pub broadcast axiom fn ax_cmp_r(a: &f64, b: &f64) ensures #[trigger] a.partial_cmp_spec(&b) == fcmp(*a, *b);
 pub broadcast axiom fn ax_eq_r(a: &f64, b: &f64) ensures #[trigger] a.eq_spec(&b) == feq(*a, *b);
+// IEEE facts about comparison that do not depend on the operands' values (discharged for ALL pairs of
+// f64 by the loop-free Kani harness `ieee_cmp_flip`): a < b  <=>  b > a, equality is symmetric, an
+// unordered pair is unordered both ways; == agrees with partial_cmp.
 pub axiom fn ax_obeys()
     ensures
+        forall|a: f64, b: f64| (#[trigger] fcmp(a, b) == Some(core::cmp::Ordering::Less)) == (fcmp(b, a) == Some(core::cmp::Ordering::Greater)),
+        forall|a: f64, b: f64| (#[trigger] fcmp(a, b) == Some(core::cmp::Ordering::Equal)) == (fcmp(b, a) == Some(core::cmp::Ordering::Equal)),
+        forall|a: f64, b: f64| (#[trigger] fcmp(a, b) is None) == (fcmp(b, a) is None),
+        forall|a: f64, b: f64| #[trigger] feq(a, b) == (fcmp(a, b) == Some(core::cmp::Ordering::Equal)),
         <f64 as AddSpec<f64>>::obeys_add_spec(),
         <f64 as AddSpec<&f64>>::obeys_add_spec(),
         <&f64 as AddSpec<f64>>::obeys_add_spec(),
@@ -159,6 +166,35 @@ pub fn __as_f64<T: ToF64>(x: T) -> (r: f64) ensures r == x.to_f64_spec() { x.__t
 // R13: identity on f64 (see rule R13 of the extractor)
 pub fn __idf(x: f64) -> (r: f64) ensures r == x { x }
 
+// ---- prelude fragment: ideal.rs ----
+// Floating point, layer 2 ("idealised real" mode of DESIGN.md 3.2): machine arithmetic treated as
+// mathematical.  rv maps a float to the real it denotes; rounding, overflow, NaN and signed zero are
+// ignored.  Used only where the property is a statement of real arithmetic.
+pub uninterp spec fn rv(x: f64) -> real;
+pub broadcast axiom fn ax_rv_add(a: f64, b: f64) ensures rv(#[trigger] fadd(a, b)) == rv(a) + rv(b);
+pub broadcast axiom fn ax_rv_sub(a: f64, b: f64) ensures rv(#[trigger] fsub(a, b)) == rv(a) - rv(b);
+pub broadcast axiom fn ax_rv_mul(a: f64, b: f64) ensures rv(#[trigger] fmul(a, b)) == rv(a) * rv(b);
+pub broadcast axiom fn ax_rv_div(a: f64, b: f64) ensures rv(b) != 0real ==> rv(#[trigger] fdiv(a, b)) == rv(a) / rv(b);
+pub broadcast axiom fn ax_rv_neg(a: f64) ensures rv(#[trigger] fneg(a)) == 0real - rv(a);
+pub broadcast axiom fn ax_rv_cmp(a: f64, b: f64)
+    ensures #[trigger] fcmp(a, b) == (if rv(a) < rv(b) { Some(core::cmp::Ordering::Less) }
+        else if rv(a) == rv(b) { Some(core::cmp::Ordering::Equal) } else { Some(core::cmp::Ordering::Greater) });
+pub broadcast axiom fn ax_rv_eq(a: f64, b: f64) ensures #[trigger] feq(a, b) == (rv(a) == rv(b));
+pub broadcast axiom fn ax_rv_max(a: f64, b: f64) ensures rv(#[trigger] fmaxf(a, b)) == (if rv(a) >= rv(b) { rv(a) } else { rv(b) });
+pub broadcast axiom fn ax_rv_min(a: f64, b: f64) ensures rv(#[trigger] fminf(a, b)) == (if rv(a) <= rv(b) { rv(a) } else { rv(b) });
+// (idealised) powf denotes a function of the real values of its arguments
+pub uninterp spec fn rpow(x: real, y: real) -> real;
+pub broadcast axiom fn ax_rv_powf(a: f64, b: f64) ensures rv(#[trigger] fpowf(a, b)) == rpow(rv(a), rv(b));
+pub axiom fn ax_rv_lits()
+    ensures rv(0.0f64) == 0real, rv(1.0f64) == 1real, rv(2.0f64) == 2real, rv(0.5f64) * 2real == 1real;
+pub broadcast group ideal {
+    ax_rv_add, ax_rv_sub, ax_rv_mul, ax_rv_div, ax_rv_neg, ax_rv_cmp, ax_rv_eq, ax_rv_max, ax_rv_min, ax_rv_powf
+}
+// (idealised) integer-to-float casts are exact
+pub broadcast axiom fn ax_rv_u64(n: u64) ensures rv(#[trigger] u64_to_f64(n)) == n as real;
+pub broadcast axiom fn ax_rv_usize(n: usize) ensures rv(#[trigger] usize_to_f64(n)) == n as real;
+pub broadcast group ideal_casts { ax_rv_u64, ax_rv_usize }
+
 // ---- prelude fragment: std_ext.rs ----
 // R5: assumed contracts on std items that vstd does not specify (each is listed in the evidence).
 #[verifier::external_trait_specification]
@@ -247,13 +283,16 @@ pub struct DeviationInfo<'a> {
 }
 
 pub open spec fn own(pl: Player, p1: bool) -> bool { match pl.num { PlayerNum::One => p1, PlayerNum::Two => !p1 } }
-// the opponent's positive-probability children, each with reach multiplied by its probability, in order
-pub open spec fn push_pos(q: Seq<(&Node, f64)>, kids: Seq<Node>, probs: Seq<f64>, reach: f64, k: int) -> Seq<(&Node, f64)>
+// q is q0 followed by the opponent's positive-probability children among the first k, in order, each
+// with reach multiplied by its probability
+pub open spec fn pushed_pos(q0: Seq<(&Node, f64)>, q: Seq<(&Node, f64)>, kids: Seq<Node>, probs: Seq<f64>, reach: f64, k: int) -> bool
     decreases k
 {
-    if k <= 0 { q } else {
-        let prev = push_pos(q, kids, probs, reach, k - 1);
-        if fgt(probs[k - 1], 0.0f64) { prev.push((&kids[k - 1], fmul(probs[k - 1], reach))) } else { prev }
+    if k <= 0 { q == q0 } else if rv(probs[k - 1]) > 0real {
+        q.len() > 0 && q.last().0 == &kids[k - 1] && rv(q.last().1) == rv(probs[k - 1]) * rv(reach)
+            && pushed_pos(q0, q.drop_last(), kids, probs, reach, k - 1)
+    } else {
+        pushed_pos(q0, q, kids, probs, reach, k - 1)
     }
 }
 
@@ -279,8 +318,8 @@ pub fn optimal_deviations__collect_step<'a, const PLAYER_ONE: bool, C: ChanceInf
             Node::Chance(ch) => out.0@ == infosets@
                 && out.1@.len() == search_queue@.len() + ch.outcomes@.len()
                 && out.1@.take(search_queue@.len() as int) == search_queue@
-                && forall|i: int| 0 <= i < ch.outcomes@.len() ==> #[trigger] out.1@[search_queue@.len() + i]
-                    == (&ch.outcomes@[i], fmul(chance_info@[ch.infoset as int].probs_view()[i], reach)),
+                && forall|i: int| 0 <= i < ch.outcomes@.len() ==> (#[trigger] out.1@[search_queue@.len() + i]).0 == &ch.outcomes@[i]
+                    && rv(out.1@[search_queue@.len() + i].1) == rv(chance_info@[ch.infoset as int].probs_view()[i]) * rv(reach),
             Node::Player(pl) => if own(pl, PLAYER_ONE) {
                 // the deviating player's own node: recorded once under ITS infoset with the opponent/chance
                 // reach, counted once as pending for the previous infoset, every action searched with the SAME reach
@@ -295,16 +334,16 @@ pub fn optimal_deviations__collect_step<'a, const PLAYER_ONE: bool, C: ChanceInf
                 && forall|j: int| 0 <= j < infosets@.len() ==> #[trigger] out.0@[j].max_utility == infosets@[j].max_utility
                 && out.1@.len() == search_queue@.len() + pl.actions@.len()
                 && out.1@.take(search_queue@.len() as int) == search_queue@
-                && forall|i: int| 0 <= i < pl.actions@.len() ==> #[trigger] out.1@[search_queue@.len() + i] == (&pl.actions@[i], reach)
+                && forall|i: int| 0 <= i < pl.actions@.len() ==> (#[trigger] out.1@[search_queue@.len() + i]).0 == &pl.actions@[i] && out.1@[search_queue@.len() + i].1 == reach
             } else {
                 // the opponent's node: only positive-probability actions, reach x probability
                 out.0@ == infosets@
-                && out.1@ == push_pos(search_queue@, pl.actions@, asref_view::<S, [f64]>(&strat_info@[pl.infoset as int])@, reach, pl.actions@.len() as int)
+                && pushed_pos(search_queue@, out.1@, pl.actions@, asref_view::<S, [f64]>(&strat_info@[pl.infoset as int])@, reach, pl.actions@.len() as int)
             },
         }, // @ob C01.V.optimal_deviations.collect_step
 {
-broadcast use fl;
-proof { ax_obeys(); }
+broadcast use fl; broadcast use ideal;
+proof { ax_obeys(); ax_rv_lits(); }
 let ghost inf0 = infosets@;
 let ghost q0 = search_queue@;
 
@@ -319,14 +358,16 @@ invariant
     infosets@ == inf_mid,
     search_queue@.len() == q0.len() + it.index@,
     search_queue@.take(q0.len() as int) == q0,
-    forall|i: int| 0 <= i < it.index@ ==> #[trigger] search_queue@[q0.len() + i] == (&chance.outcomes@[i], fmul(probs@[i], reach)),
+    forall|i: int| 0 <= i < it.index@ ==> (#[trigger] search_queue@[q0.len() + i]).0 == &chance.outcomes@[i] && rv(search_queue@[q0.len() + i].1) == rv(probs@[i]) * rv(reach),
     probs@.len() == chance.outcomes@.len(),
 {
-broadcast use fl;
-proof { ax_obeys(); }
+broadcast use fl; broadcast use ideal;
+proof { ax_obeys(); ax_rv_lits(); }
 
                     search_queue.push((next, prob * reach));
-                }
+                
+proof { assert(rv(reach) * rv(*prob) == rv(*prob) * rv(reach)) by(nonlinear_arith); }
+}
             }
             Node::Player(player) => match (player.num, PLAYER_ONE) {
                 (PlayerNum::One, true) | (PlayerNum::Two, false) => {
@@ -341,10 +382,10 @@ invariant
     infosets@ == inf_mid,
     search_queue@.len() == q0.len() + it.index@,
     search_queue@.take(q0.len() as int) == q0,
-    forall|i: int| 0 <= i < it.index@ ==> #[trigger] search_queue@[q0.len() + i] == (&player.actions@[i], reach),
+    forall|i: int| 0 <= i < it.index@ ==> (#[trigger] search_queue@[q0.len() + i]).0 == &player.actions@[i] && search_queue@[q0.len() + i].1 == reach,
 {
-broadcast use fl;
-proof { ax_obeys(); }
+broadcast use fl; broadcast use ideal;
+proof { ax_obeys(); ax_rv_lits(); }
 
                         search_queue.push((next, reach));
                     }
@@ -356,15 +397,18 @@ for (prob, next) in it: probs.iter().zip(player.actions.iter())
 invariant
     0 <= it.index@ <= player.actions@.len(), probs@.len() == player.actions@.len(),
     infosets@ == inf_mid,
-    search_queue@ == push_pos(q0, player.actions@, probs@, reach, it.index@ as int),
+    pushed_pos(q0, search_queue@, player.actions@, probs@, reach, it.index@ as int),
 {
-broadcast use fl;
-proof { ax_obeys(); }
+broadcast use fl; broadcast use ideal;
+proof { ax_obeys(); ax_rv_lits(); }
+let ghost qb = search_queue@;
 
                         if prob > &0.0 {
                             search_queue.push((next, prob * reach));
                         }
-                    }
+                    
+proof { assert(rv(reach) * rv(*prob) == rv(*prob) * rv(reach)) by(nonlinear_arith); if rv(*prob) > 0real { assert(search_queue@.drop_last() =~= qb); } }
+}
                 }
             },
         }
@@ -377,7 +421,7 @@ proof { ax_obeys(); }
 pub proof fn __canary_must_fail()
     ensures false, // @ob __canary
 {
-    broadcast use fl; ax_obeys();
+    broadcast use fl; broadcast use ideal; ax_obeys(); ax_rv_lits();
 }
 
 } // verus!
